@@ -81,6 +81,13 @@ def gen_cases(ctx):
     for st, en in sets:
         for L, step in ((2, 1), (2, 2), (4, 3), (4, 4), (1, 1)):
             cases.append(("ovsplit", dict(st=st, en=en, L=L, step=step)))
+    # supports mixing epochs long enough to hold several windows with epochs shorter than one window / than the overlap
+    big = gen.canonical_sets(9, 3)
+    if ctx.quick:
+        big = big[::3]
+    for st, en in big:
+        for L, step in ((4, 1), (4, 2), (4, 3), (2, 1), (2, 2), (8, 2)):
+            cases.append(("ovsplit", dict(st=st, en=en, L=L, step=step)))
     if ctx.quick and len(cases) > 60000:
         keep = cases[::2]
         cases = keep
